@@ -51,6 +51,7 @@ def make_ctx():
     c = Ctx()
     c.W = np.array([[0, 1.5, 0], [0, 0, -2.0], [0, 0, 0]])
     c.lganm = sempler.LGANM(c.W, np.array([0.5, -1.0, 2.0]), np.array([1.0, 0.5, 2.0]))
+    c.lganm_seeded = sempler.LGANM(c.W, (0, 1), (0.5, 2), random_state=0)     # a model that was itself built with a seed
     c.nd = sempler.NormalDistribution(np.array([1.0, 2.0, 3.0]), np.array([[2.0, 1, 0], [1, 2, 1], [0, 1, 2]]))
     c.A = np.array([[0, 1, 1], [0, 0, 1], [0, 0, 0]])
     c.anm = sempler.ANM(c.A, [None, lambda x: 2 * x, lambda x: x[:, 0] - x[:, 1] ** 2],
@@ -66,6 +67,7 @@ def _ops():
     ops["lganm_ctor"] = lambda c, s: (lambda m: (m.means, m.variances))(sempler.LGANM(c.W, (0, 1), (0.5, 2), random_state=s))
     ops["lganm_sample"] = lambda c, s: c.lganm.sample(4, random_state=s)
     ops["lganm_sample_iv"] = lambda c, s: c.lganm.sample(3, do_interventions={0: (1, 2)}, shift_interventions={2: (0.5, 1)}, random_state=s)
+    ops["lganm_seeded_ctor_sample"] = lambda c, s: c.lganm_seeded.sample(3, noise_interventions={1: (0.5, 2)}, random_state=s)
     ops["nd_sample"] = lambda c, s: c.nd.sample(4, random_state=s)
     ops["anm_sample"] = lambda c, s: c.anm.sample(4, random_state=s)
     ops["anm_sample_iv"] = lambda c, s: c.anm.sample(3, do_interventions={1: noise.uniform(1, 2)}, noise_interventions={0: noise.laplace()}, random_state=s)
@@ -90,6 +92,7 @@ def _perturb():
     p["np.normal(3)"] = lambda c: np.random.normal(size=3)
     p["default_rng(5).uniform"] = lambda c: np.random.default_rng(5).uniform()
     p["lganm.sample unseeded"] = lambda c: c.lganm.sample(2)
+    p["lganm(seeded ctor).sample unseeded"] = lambda c: c.lganm_seeded.sample(2)
     p["anm.sample unseeded"] = lambda c: c.anm.sample(2)
     p["nd.sample unseeded"] = lambda c: c.nd.sample(1)
     p["noise draw"] = lambda c: noise.uniform()(3)
@@ -102,6 +105,8 @@ def _perturb():
 PERTURB = _perturb()
 UNSEEDED_PAIRS = {
     "lganm.sample": lambda c: c.lganm.sample(12),
+    "lganm(built with random_state=0).sample": lambda c: c.lganm_seeded.sample(12),
+    "lganm.sample(do)": lambda c: c.lganm.sample(12, do_interventions={0: (1, 2)}),
     "anm.sample": lambda c: c.anm.sample(12),
     "nd.sample": lambda c: c.nd.sample(12),
 }
@@ -173,7 +178,7 @@ def evaluate_state(ctx, seed, upto=None):
             fails.append((k, "not-reproducible:%s%s" % (name, ":seed0" if s == 0 else ""),
                           "%s(random_state=%d) differs from its result in the initial state" % (name, s)))
         np.random.set_state(st)
-    if upto is None:
+    if upto is None or upto >= len(obs):
         for name, f in UNSEEDED_PAIRS.items():
             a, b = f(ctx), f(ctx)
             if np.array_equal(a, b):
@@ -184,7 +189,7 @@ def evaluate_state(ctx, seed, upto=None):
 
 def canon(ctx):
     return (H.rng_state_digest(),
-            H.digest_value([vars(ctx.lganm), vars(ctx.nd), {k: v for k, v in vars(ctx.anm).items() if k not in ("assignments", "noise_distributions")}]),
+            H.digest_value([vars(ctx.lganm), vars(ctx.lganm_seeded), vars(ctx.nd), {k: v for k, v in vars(ctx.anm).items() if k not in ("assignments", "noise_distributions")}]),
             H.defaults_digest([sempler.LGANM.sample, sempler.ANM.sample, sempler.NormalDistribution.sample, gen.dag_avg_deg, gen.dag_full,
                                gen.intervention_targets, U.split_data, U.add_edges, U.remove_edges]),
             H.module_globals_digest([sempler.lganm, sempler.anm, sempler.normal_distribution, gen, noise, U]),
@@ -292,11 +297,11 @@ def describe(tier, seed):
     return {
         "technique": "explicit-state exploration of call histories on the real objects with the real numpy RNG: all histories to a depth without deduplication + BFS "
                      "deduplicated on a canonical state digest; differential oracle (bit-identity with the initial-state result)",
-        "rule": "history alphabet of %d operations: 14 seeded APIs (LGANM construction with ranges, LGANM / NormalDistribution / ANM sampling plain and intervened with "
+        "rule": "history alphabet of %d operations: 15 seeded APIs (LGANM construction with ranges, LGANM / NormalDistribution / ANM sampling plain and intervened with "
                 "normal+uniform+laplace noise, dag_avg_deg with/without ordering, dag_full, intervention_targets with/without replacement, split_data, add_edges, "
-                "remove_edges) x seeds {0, 12345} plus 11 perturbations (reseeding numpy with 99 and 0, global draws, private generators, unseeded library sampling and "
-                "construction, set_state); every history of length <= %d (no deduplication) and BFS with state deduplication to depth %d; in every state all 14 seeded "
-                "APIs x seeds {0, 1, 42, 12345, VERIF_SEED} must be bit-identical to the initial-state reference and 3 unseeded samplers called twice must differ; the "
+                "remove_edges) x seeds {0, 12345} plus 12 perturbations (reseeding numpy with 99 and 0, global draws, private generators, unseeded library sampling and "
+                "construction, set_state); every history of length <= %d (no deduplication) and BFS with state deduplication to depth %d; in every state all 15 seeded "
+                "APIs x seeds {0, 1, 42, 12345, VERIF_SEED} must be bit-identical to the initial-state reference and 5 unseeded samplers called twice must differ; the "
                 "reference table is recomputed in two fresh interpreters with other PYTHONHASHSEED values. non-trivial: non-empty history" % (
                     len(alpha), 2 if tier == "quick" else 3, 3 if tier == "quick" else 4),
         "exhaustive": True,
